@@ -134,7 +134,7 @@ func cmdRun(args []string) {
 	h := fs.String("h", "", "harness function")
 	sub := fs.String("sub", "spg", "harness set (spg|opgen)")
 	workers := fs.Int("w", 16, "workers")
-	unwind := fs.Int("unwind", 300, "unwind bound")
+	unwind := fs.Int("unwind", 20000, "unwind bound")
 	maxPaths := fs.Int("paths", 200000, "path budget")
 	params := fs.String("p", "", "k=v,...")
 	useInt := fs.Bool("int", false, "enable INT solvers")
